@@ -319,8 +319,41 @@ def run(tier):
         else:
             stats["near_duplicate_programs"] += 1
             v.distinct(("nd", tuple(order)))
+    # (8) LARGE programs of DIVERSE lines with a periodic layout: every line padded with blanks to exactly W = 16 / 32 / 64 bytes, a
+    # vocabulary of ~300 different lines, 12 000 - 70 000 lines (0.4 - 1.1 MB of text; thorough: up to 4 MB). Line k and the line 65536
+    # BYTES (or 65536 LINES) earlier then start at positions that agree modulo 2^16: a position, length or line number kept in a narrow
+    # type makes one of them pass for the other.
+    vocab = sorted(set(t for t in pok if len(t) <= 30))
+    big_cases, big_meta = [], []
+    for W, nlines in ((32, 12000), (16, 70000), (64, 9000)) if not full else ((32, 12000), (16, 70000), (64, 9000), (32, 140000), (16, 270000), (64, 70000)):
+        voc = [t for t in vocab if len(t) < W - 1]
+        voc = rnd.sample(voc, min(len(voc), 300))
+        if len(voc) < 20:
+            continue
+        m = masks[W % 3]
+        prog = [rnd.choice(voc) for _ in range(nlines)]
+        text = "".join(t + " " * (W - 1 - len(t)) + "\n" for t in prog)
+        exp = "".join(palone[m][t] for t in prog)
+        big_cases.append(["new 0 int", "opt 0 mov %s" % m[0], "opt 0 swap %s" % m[1], "opt 0 nobase %s" % m[2], "asm 0 %s" % common.hx(text), "sumoff 0"])
+        big_meta.append((W, nlines, m, exp, len(text)))
+    bres = common.run_cases(binary, big_cases, tag="c06L", per_case_timeout=300)
+    stats["large_periodic_programs"] = 0
+    for (W, nlines, m, exp, tl), cmds, r in zip(big_meta, big_cases, bres):
+        v.count()
+        case = {"key": "large periodic program: %d lines of %d bytes (%d bytes of text) [%s]" % (nlines, W, tl, m), "fam": "concat_large", "n": nlines}
+        if r["crash"]:
+            v.violation(case, r["crash"]["sig"], r["crash"]["stderr"][-800:])
+            continue
+        a, so = r["records"][4].split(), r["records"][5].split()
+        if a[1] != "0" or int(so[1]) != len(exp) // 2:
+            v.violation(case, "large:rc/offset-differs", "rc=%s off=%s want %d" % (a[1], so[1], len(exp) // 2))
+        elif so[2] != fnv(exp):
+            v.violation(case, "program!=concatenation-of-its-lines", "fingerprint of %d bytes of code %s, of the concatenation %s" % (len(exp) // 2, so[2], fnv(exp)))
+        else:
+            stats["large_periodic_programs"] += 1
+            v.distinct(("large", W, nlines, m))
     v.cov["rule"] = ("representative set R (one line per structural group of the C01-C05 generators + skipped lines: comments, labels, section/global, blanks), enc(l) = line alone on a fresh "
                      "instance with the same options; all ordered pairs of R; seeded programs of 3-200 lines x all 2^(k-1) splits for k<=7 (random splits beyond) x start offsets {0,1,19,4095} x prefill "
-                     "{00,CC,FF,90} x repetition after asm_set_offset; programs assembled over the code of a sibling program (same lines, other constants) or of themselves; one line / a pair of lines repeated 300 and 66000 times in one call; 1500 (40000) programs of 3-14 lines drawn from the whole corpus (several lines of one mnemonic with other operands, zero- and many-operand lines in between); programs of near-duplicate neighbours (lines equal up to the last digit / register, common prefixes of up to 90 characters); oracle: byte equality with the concatenation and offset == start + total")
+                     "{00,CC,FF,90} x repetition after asm_set_offset; programs assembled over the code of a sibling program (same lines, other constants) or of themselves; one line / a pair of lines repeated 300 and 66000 times in one call; 1500 (40000) programs of 3-14 lines drawn from the whole corpus (several lines of one mnemonic with other operands, zero- and many-operand lines in between); programs of near-duplicate neighbours (lines equal up to the last digit / register, common prefixes of up to 90 characters); large programs (0.4-1.1 MB of text, thorough 4 MB) of ~300 different lines padded to a fixed width of 16 / 32 / 64 bytes; oracle: byte equality with the concatenation and offset == start + total")
     v.cov["exhaustive"] = False
     return v.finish(stats, stats["representative_lines"] >= 100 and stats["pairs"] > 5000, "representative set too small: %r" % stats)
